@@ -1,5 +1,140 @@
-"""Documents engine: C01 C02 C04 (this file), C11 (docs_attr.py), C03 (docs_cost.py)."""
+"""Documents engine: C01 C02 C04 (this file), C11 (docs_attr.py), C03 (docs_cost.py).
+
+spec -> impl: MC_Doc.tla (writer over the token machine XmlDoc.tla, text by XmlSurface.tla; exhaustive up to
+              a token bound, -simulate beyond) emits REPLAY lines {toks, style, text, wf, viol, tree};
+              harness `doc-replay` parses each text in both DOM views, projects, round-trips.
+impl -> spec: harness `doc-record` (seeded random token sequences and token edits, rendered by the spec:
+              Trace_Doc in render mode) ; every judged event is decided by Trace_Doc.tla, which re-derives
+              the expectation from the recorded tokens.
+"""
+import json
+import os
+
 import common as C
+
+EXH = {  # exhaustive writer bounds per tier
+    "quick": dict(MaxTokens=4, MaxDepth=2, MaxBad=1, MaxTop=2, MaxDtd=2, MaxTrunc=2, Wide="FALSE",
+                  NStylesGood=4, NStylesBad=2),
+    "thorough": dict(MaxTokens=5, MaxDepth=3, MaxBad=1, MaxTop=2, MaxDtd=2, MaxTrunc=2, Wide="FALSE",
+                     NStylesGood=6, NStylesBad=2),
+}
+SIM = {  # -simulate runs: (constants, number of behaviours, depth)
+    "quick": [
+        (dict(MaxTokens=14, MaxDepth=3, MaxBad=0, MaxTop=3, MaxDtd=4, MaxTrunc=0, Wide="TRUE",
+              NStylesGood=3, NStylesBad=1), 400, 16),
+        (dict(MaxTokens=12, MaxDepth=3, MaxBad=2, MaxTop=3, MaxDtd=3, MaxTrunc=6, Wide="TRUE",
+              NStylesGood=1, NStylesBad=2), 300, 14),
+    ],
+    "thorough": [
+        (dict(MaxTokens=24, MaxDepth=4, MaxBad=0, MaxTop=4, MaxDtd=6, MaxTrunc=0, Wide="TRUE",
+              NStylesGood=6, NStylesBad=1), 6000, 26),
+        (dict(MaxTokens=16, MaxDepth=3, MaxBad=2, MaxTop=3, MaxDtd=4, MaxTrunc=8, Wide="TRUE",
+              NStylesGood=1, NStylesBad=3), 6000, 18),
+    ],
+}
+JUDGE_FAST_CAP = {"quick": 1500, "thorough": 12000}   # fast-path events also judged by TLC
+
+
+def _mc_cfg(path, consts):
+    lines = ["SPECIFICATION Spec", "CONSTANTS"]
+    for k, v in consts.items():
+        lines.append(" %s = %s" % (k, v))
+    lines += ["INVARIANT Inv", "CHECK_DEADLOCK FALSE"]
+    C.write_cfg(path, lines)
+
+
+def mc_cases(wd, tier, out=None):
+    """Run the writer (exhaustive + simulation); returns the path of the REPLAY file.
+    Also used by the C03 engine (every C01/C02 input counts for totality)."""
+    replay = os.path.join(wd, "docs.replay")
+    runs = []
+    cfgname = "MC_Doc.%d.cfg" % os.getpid()
+    cfg = os.path.join(C.SPEC, cfgname)
+    try:
+        _mc_cfg(cfg, EXH[tier])
+        part = os.path.join(wd, "docs.exh.replay")
+        res = C.run_tlc("MC_Doc", cfgname, "docmc", to_file=part, workers=8, timeout=2400,
+                        keep_tags=["REPLAY"], xmx="12g")
+        C.tlc_must_pass(res, "MC_Doc exhaustive")
+        runs.append(("exhaustive", res, part))
+        for k, (consts, num, depth) in enumerate(SIM[tier]):
+            _mc_cfg(cfg, consts)
+            part = os.path.join(wd, "docs.sim%d.replay" % k)
+            res = C.run_tlc("MC_Doc", cfgname, "docsim%d" % k, to_file=part, workers=8, timeout=2400,
+                            keep_tags=["REPLAY"], simulate=num, depth=depth, xmx="12g")
+            if res.returncode != 0:
+                C.log("\n".join(res.raw_tail[-30:]))
+                raise C.ToolError("MC_Doc simulation failed")
+            runs.append(("simulate%d" % k, res, part))
+    finally:
+        if os.path.exists(cfg):
+            os.unlink(cfg)
+    with open(replay, "w") as f:
+        for _, _, part in runs:
+            with open(part) as g:
+                for line in g:
+                    f.write(line)
+    if out is not None:
+        for name, res, part in runs:
+            if name == "exhaustive":
+                out.add_tlc(res)
+            out.extra.setdefault("tlc_runs", []).append(
+                {"run": name, "states_generated": res.states, "distinct": res.distinct,
+                 "replay_lines": C.count_lines(part), "wall_s": round(res.wall, 1)})
+    return replay
+
+
+def _trace_cfg(path, prop, open_names):
+    C.write_cfg(path, [
+        "SPECIFICATION Spec",
+        "CONSTANT Prop = \"%s\"" % prop,
+        "CONSTANT Open = %s" % C.tla_set(open_names),
+        "POSTCONDITION Done",
+        "CHECK_DEADLOCK FALSE",
+    ])
+
+
+def _judge(out, prop, events, wd, tag):
+    """events: list of observation dicts -> verdicts through Trace_Doc.tla"""
+    if not events:
+        return None
+    trace = os.path.join(wd, "%s.trace" % tag)
+    with open(trace, "w") as f:
+        for e in events:
+            f.write(json.dumps(e, separators=(",", ":")) + "\n")
+    cfgname = "Trace_Doc.%d.cfg" % os.getpid()
+    cfg = os.path.join(C.SPEC, cfgname)
+    _trace_cfg(cfg, prop, out.open.keys())
+    try:
+        res = C.run_tlc("Trace_Doc", cfgname, tag, env={"TRACE": trace}, workers=1, deque=True,
+                        timeout=3000, xmx="8g")
+    finally:
+        os.unlink(cfg)
+    C.tlc_must_pass(res, "Trace_Doc")
+    for t, v in res.lines:
+        if t == "TRUNCATED":
+            raise C.ToolError("trace validation consumed only part of the trace: %s" % (v,))
+    if res.distinct != len(events) + 1:
+        raise C.ToolError("trace validation visited %d states for %d events" % (res.distinct, len(events)))
+    for t, v in res.lines:
+        if t == "VERDICT":
+            if str(v.get("verdict", "")).startswith("TOOL-"):
+                raise C.ToolError("trace event %s: %s" % (v.get("i"), v.get("verdict")))
+            ev = events[v["i"] - 1]
+            out.verdict(v, {"text": "".join(chr(c) for c in ev["text"]), "event": ev})
+    return res
+
+
+def _relevant(prop, e):
+    if prop == "C01":
+        return bool(e["wf"])
+    if prop == "C02":
+        return not e["wf"]
+    return e["raw"]["parse"] == "ok" and e["raw"]["rest"] == 0      # C04: accepted inputs
+
+
+def _text(e):
+    return "".join(chr(c) for c in e["text"])
 
 
 def run(prop, tier):
@@ -9,7 +144,51 @@ def run(prop, tier):
     if prop == "C11":
         import docs_attr
         return docs_attr.run(prop, tier)
-    raise C.ToolError("not built yet: " + prop)
+    out = C.Outcome(prop, tier)
+    wd = C.workdir("docs" + prop)
+    try:
+        replay = mc_cases(wd, tier, out)
+        obs = os.path.join(wd, "docs.obs")
+        C.run_harness(["doc-replay", "--in", replay, "--out", obs])
+        events = C.read_ndjson(obs)
+        rel = [e for e in events if _relevant(prop, e)]
+        slow = [e for e in rel if not e["fast"]]
+        fast = [e for e in rel if e["fast"]]
+        # every event that is not trivially ok is judged by TLC, plus a slice of the fast-path ones
+        cap = JUDGE_FAST_CAP[tier]
+        step = max(1, len(fast) // cap) if fast else 1
+        judged = slow + fast[::step][:cap]
+        _judge(out, prop, judged, wd, "doctv")
+        out.traces = len(judged)
+        out.evaluations = len(rel)
+        seen = set()
+        for e in rel:
+            t = _text(e)
+            if t in seen:
+                continue
+            seen.add(t)
+            if len(e["toks"]) >= 4:
+                out.nontriv(t)
+        for e in rel[:3] + rel[-2:]:
+            out.sample({"text": _text(e), "wf": e["wf"], "viol": e["viol"], "raw": e["raw"]["parse"],
+                        "rest": e["raw"]["rest"], "fast": e["fast"]})
+        out.extra["documents_replayed"] = len(events)
+        out.extra["relevant_for_property"] = len(rel)
+        out.extra["judged_by_tlc"] = len(judged)
+        out.extra["fast_path_only"] = len(rel) - len(judged)
+        out.rule = ("a case is one rendering (token sequence x style) of a writer behaviour; non-trivial = "
+                    "distinct text with >= 3 tokens before `end`")
+        out.assumptions = [
+            "exhaustive writer: %s; simulation beyond: %s" % (EXH[tier], [(c, n, d) for c, n, d in SIM[tier]]),
+            "token alphabet of MC_Doc.tla (names a, b, p:a; 4 start-tags, 4 texts, CDATA, comment, PI, 3 XML "
+            "declarations, 4 DOCTYPE shapes, ENTITY/NOTATION/ATTLIST/ELEMENT declarations; 30 ill-formed tokens)",
+            "namespace declarations are not compared; no external subset is read; no parameter entities",
+            "fast path: an observation exactly equal to the REPLAY expectation is counted ok without TLC "
+            "(a slice of those is judged by Trace_Doc.tla as well)",
+        ]
+        return out.finish()
+    finally:
+        C.cleanup(wd)
 
 
 def replay(prop, path):
@@ -19,4 +198,25 @@ def replay(prop, path):
     if prop == "C11":
         import docs_attr
         return docs_attr.replay(prop, path)
-    raise C.ToolError("not built yet: " + prop)
+    out = C.Outcome(prop, "quick")
+    wd = C.workdir("docsr" + prop)
+    try:
+        v = json.load(open(path))
+        ev = v.get("case", v).get("event", v.get("case", v))
+        inp = os.path.join(wd, "r.in")
+        with open(inp, "w") as f:
+            f.write(json.dumps({"toks": ev["toks"], "style": ev["style"], "text": ev["text"],
+                                "wf": ev.get("wf", False), "viol": ev.get("viol", []),
+                                "inprofile": True, "tree": {}}) + "\n")
+        obs = os.path.join(wd, "r.obs")
+        C.run_harness(["doc-replay", "--in", inp, "--out", obs])
+        events = C.read_ndjson(obs)
+        _judge(out, prop, events, wd, "docrv")
+        out.traces = len(events)
+        out.evaluations = len(events)
+        out.nontrivial_count = 1
+        out.sample({"text": _text(events[0])})
+        out.rule = "replay of one stored case"
+        return out.finish()
+    finally:
+        C.cleanup(wd)
